@@ -37,12 +37,17 @@ type c08call struct {
 	after     []int
 	release   []int // late replies released after this call returned (between calls)
 	timeoutMs int
-	filter    string
-	rogue     []byte // payload of an unsolicited extra message emitted before the reply (malformed stream)
+	// history elements: idleFactor*(previous call's timeout) of silence before this call;
+	// useDefault = no per-operation timeout, the driver's TimeoutOps (plan.opsMs) is in force
+	idleFactor int
+	useDefault bool
+	filter     string
+	rogue      []byte // payload of an unsolicited extra message emitted before the reply (malformed stream)
 }
 
 type c08plan struct {
 	name       string
+	opsMs      int // driver-level TimeoutOps (0: 2000 ms)
 	v11        bool
 	echo       int
 	trailingLF bool
@@ -234,6 +239,65 @@ func c08GenPlan(r *vlib.Rng, maxCalls int) c08plan {
 	return p
 }
 
+// effective timeout of call k in ms (unscaled)
+func (p c08plan) timeoutOf(k int) int {
+	if p.calls[k].useDefault {
+		if p.opsMs > 0 {
+			return p.opsMs
+		}
+		return 2000
+	}
+	return p.calls[k].timeoutMs
+}
+
+// c08AddHistory decorates a plan with history elements, from its own random stream so that the
+// base plan of a seed stays what it always was: idle gaps of 1x / 2x the previous call's timeout
+// (after successes and after genuine timeouts), per-operation timeouts that differ from call to
+// call (50..150 ms, long then short, short then long), calls that rely on the driver's TimeoutOps.
+func c08AddHistory(p *c08plan, h *vlib.Rng) {
+	if !h.Chance(1, 3) {
+		return
+	}
+	if h.Chance(1, 3) {
+		p.opsMs = 150
+	}
+	for k := range p.calls {
+		c := &p.calls[k]
+		switch h.Intn(4) {
+		case 0:
+			c.timeoutMs = h.Range(50, 70)
+		case 1:
+			c.timeoutMs = h.Range(120, 150)
+		}
+		if p.opsMs > 0 && h.Chance(1, 3) {
+			c.useDefault = true
+		}
+		if k > 0 {
+			switch g := h.Intn(20); {
+			case g < 3:
+				c.idleFactor = 1
+			case g < 5:
+				c.idleFactor = 2
+			}
+		}
+	}
+}
+
+func c08HistoryPlan(name string, v11 bool, echo int, spec []int) c08plan {
+	// spec: per call 4 numbers: mode, timeoutMs (0 = driver TimeoutOps), idleFactor
+	p := c08plan{name: name, v11: v11, echo: echo, seg: []int{1 << 20}, opsMs: 150}
+	for i := 0; i+2 < len(spec); i += 3 {
+		c := c08call{mode: spec[i], timeoutMs: spec[i+1], idleFactor: spec[i+2], filter: "<a/>",
+			payload: []byte(`<rpc-reply message-id="` + c08IDToken + `"><ok/></rpc-reply>`)}
+		if c.timeoutMs == 0 {
+			c.useDefault = true
+			c.timeoutMs = 150
+		}
+		p.calls = append(p.calls, c)
+	}
+	return p
+}
+
 // directed plans keep the two known findings (and their healthy neighbours) in every run
 func c08Directed(name string) (c08plan, bool) {
 	pl := func(id string, extra string) []byte {
@@ -246,6 +310,25 @@ func c08Directed(name string) (c08plan, bool) {
 		return p
 	}
 	switch name {
+	case "hist-idle-after-success-10":
+		return c08HistoryPlan(name, false, 0, []int{0, 100, 0, 0, 100, 1, 0, 100, 2, 0, 100, 0}), true
+	case "hist-idle-after-success-11":
+		return c08HistoryPlan(name, true, 0, []int{0, 100, 0, 0, 100, 2, 0, 100, 1, 0, 100, 0}), true
+	case "hist-idle-default-timeout":
+		return c08HistoryPlan(name, true, sim.C08EchoSep, []int{0, 0, 0, 0, 0, 1, 0, 0, 2, 2, 0, 0, 0, 0, 1}), true
+	case "hist-idle-after-timeout":
+		return c08HistoryPlan(name, false, 0, []int{2, 60, 0, 0, 60, 1, 2, 60, 0, 0, 60, 2, 1, 60, 0, 0, 60, 1}), true
+	case "hist-short-then-long":
+		return c08HistoryPlan(name, true, 0, []int{0, 50, 0, 0, 150, 1, 0, 50, 0, 0, 150, 2, 2, 50, 0, 0, 150, 1}), true
+	case "hist-long-then-short":
+		return c08HistoryPlan(name, false, sim.C08EchoMerged, []int{0, 150, 0, 0, 50, 0, 0, 150, 0, 0, 50, 1, 2, 150, 0, 0, 50, 0, 0, 50, 2}), true
+	case "hist-many-in-a-row":
+		var spec []int
+		for i := 0; i < 25; i++ {
+			spec = append(spec, 0, 60+10*(i%4), 0)
+		}
+		spec[3*12+2] = 1
+		return c08HistoryPlan(name, true, 0, spec), true
 	case "f13-split-id":
 		return two(c08plan{name: name, v11: true, seg: []int{1 << 20}}, pl(c08IDToken, "<ok/>"), []int{5, 7, 9}), true
 	case "f13-split-id-echo":
@@ -263,15 +346,18 @@ func c08Directed(name string) (c08plan, bool) {
 	return c08plan{}, false
 }
 
-var c08DirectedNames = []string{"f13-split-id", "f13-split-id-echo", "chunked-id-intact", "f2-hashhash-cut", "f2-hashhash-whole", "f2-hashhash-prefix-cut"}
+var c08DirectedNames = []string{"hist-idle-after-success-10", "hist-idle-after-success-11", "hist-idle-default-timeout",
+	"hist-idle-after-timeout", "hist-short-then-long", "hist-long-then-short", "hist-many-in-a-row", "f13-split-id", "f13-split-id-echo", "chunked-id-intact", "f2-hashhash-cut", "f2-hashhash-whole", "f2-hashhash-prefix-cut"}
 
 // ---------------------------------------------------------------------------------------------
 // execution against the real driver
 
 type c08outcome struct {
-	class string // nil | timeout | connection | netconf | operation | other | panic
-	raw   []byte
-	res   string
+	class   string // nil | timeout | connection | netconf | operation | other | panic
+	elapsed time.Duration
+	limit   time.Duration // the timeout in force for the call
+	raw     []byte
+	res     string
 }
 
 type c08unit struct {
@@ -340,6 +426,7 @@ func c08Execute(p c08plan, tscale int) (run c08run) {
 	srv.Start()
 	d, err := netconf.NewDriver("h", options.WithCustomTransport(srv), options.WithAuthBypass(),
 		options.WithTimeoutOps(2*time.Second), options.WithReadDelay(50*time.Microsecond))
+
 	if err != nil {
 		run.openErr = err
 		return run
@@ -374,8 +461,16 @@ func c08Execute(p c08plan, tscale int) (run c08run) {
 		}
 		time.Sleep(time.Millisecond)
 	}
-	for _, c := range p.calls {
+	if p.opsMs > 0 {
+		d.Channel.TimeoutOps = time.Duration(p.opsMs*tscale) * time.Millisecond
+	}
+	for k, c := range p.calls {
+		if k > 0 && c.idleFactor > 0 {
+			// the session idles: nothing is sent, nothing arrives
+			time.Sleep(time.Duration(c.idleFactor*p.timeoutOf(k-1)*tscale+15) * time.Millisecond)
+		}
 		var o c08outcome
+		o.limit = time.Duration(p.timeoutOf(k)*tscale) * time.Millisecond
 		func() {
 			defer func() {
 				if r := recover(); r != nil {
@@ -383,7 +478,13 @@ func c08Execute(p c08plan, tscale int) (run c08run) {
 					o.res = fmt.Sprint(r)
 				}
 			}()
-			rr, err := d.RPC(opoptions.WithFilter(c.filter), opoptions.WithTimeoutOps(time.Duration(c.timeoutMs*tscale)*time.Millisecond))
+			opts := []util.Option{opoptions.WithFilter(c.filter)}
+			if !c.useDefault {
+				opts = append(opts, opoptions.WithTimeoutOps(time.Duration(c.timeoutMs*tscale)*time.Millisecond))
+			}
+			t0 := time.Now()
+			rr, err := d.RPC(opts...)
+			o.elapsed = time.Since(t0)
 			o.class = c08ErrClass(err)
 			if err == nil && rr != nil {
 				o.raw = append([]byte{}, rr.RawResult...)
@@ -524,10 +625,16 @@ func c08Script(run c08run, resetAfter map[int]bool, idleEvery bool) string {
 			ui++
 		}
 	}
-	for k := range run.plan.calls {
-		items = append(items, "C", "P")
+	for k, cl := range run.plan.calls {
+		tmo := run.plan.timeoutOf(k)
+		if k > 0 && cl.idleFactor > 0 {
+			items = append(items, fmt.Sprintf("T%d", cl.idleFactor*run.plan.timeoutOf(k-1)+15)) // idle gap
+		}
+		// the call arms its own timer; everything the server sends at once arrives "now"; then the
+		// rest of the timeout passes
+		items = append(items, fmt.Sprintf("C%d", tmo), "P")
 		emitPhase(2*k, true)
-		items = append(items, "X")
+		items = append(items, fmt.Sprintf("T%d", tmo))
 		emitPhase(2*k+1, false)
 	}
 	emitPhase(1<<30, false)
@@ -669,7 +776,10 @@ func runC08(c *ctx) {
 		} else if len(f) >= 4 && f[1] == "plan" {
 			seed, _ := strconv.ParseUint(f[2], 10, 64)
 			mc, _ := strconv.Atoi(f[3])
-			jobs = append(jobs, job{c.replay, c08GenPlan(vlib.NewRng(seed), mc)})
+			pp := c08GenPlan(vlib.NewRng(seed), mc)
+			c08AddHistory(&pp, vlib.NewRng(seed^0x5bd1e9955bd1e995))
+			pp.name = fmt.Sprintf("seed-%d", seed)
+			jobs = append(jobs, job{c.replay, pp})
 		}
 	} else {
 		for _, n := range c08DirectedNames {
@@ -684,6 +794,7 @@ func runC08(c *ctx) {
 				mc = 8
 			}
 			p := c08GenPlan(vlib.NewRng(seed), mc)
+			c08AddHistory(&p, vlib.NewRng(seed^0x5bd1e9955bd1e995))
 			p.name = fmt.Sprintf("seed-%d", seed)
 			jobs = append(jobs, job{fmt.Sprintf("c08 plan %d %d", seed, mc), p})
 		}
@@ -884,7 +995,7 @@ func runC08(c *ctx) {
 				impl = vlib.Hex(o.raw)
 			}
 			desc := fmt.Sprintf("call %d (id %d, v%s, echo=%d, mode=%d)", k, idBase+k, ver, p.echo, cl.mode)
-			sess := fmt.Sprintf("; session %s timeout=%dms chunks=%v seg=%v payload=%q", p.name, cl.timeoutMs, cl.chunks, p.seg, cl.payload)
+			sess := fmt.Sprintf("; session %s timeout=%dms idle-before=%dx chunks=%v seg=%v payload=%q", p.name, p.timeoutOf(k), cl.idleFactor, cl.chunks, p.seg, cl.payload)
 			// unconditional: whatever comes back carries the caller's id first
 			if o.class == "nil" {
 				m := c08ReMsgID.FindSubmatch(o.raw)
@@ -900,6 +1011,12 @@ func runC08(c *ctx) {
 			} else if o.class != "timeout" {
 				fails = append(fails, fail{"oracle", desc + ": call failed with error class " + o.class + ": " + o.res + sess, "wrong-error:" + o.class})
 				continue
+			}
+			// a timeout verdict long before the timeout in force has elapsed cannot be blamed on a
+			// loaded host (load only makes a call slower): the timer did not belong to this call
+			premature := o.class == "timeout" && o.limit > 0 && o.elapsed < o.limit/2
+			if premature {
+				fails = append(fails, fail{"oracle", desc + fmt.Sprintf(": returned a timeout error after %v although the timeout in force was %v (a timer must be armed per call and judged only by what happens after the call started)", o.elapsed.Round(10*time.Microsecond), o.limit) + sess, "premature-timeout"})
 			}
 			// correspondence: the model predicts the exact raw message or the timeout
 			specOK := false
@@ -937,7 +1054,7 @@ func runC08(c *ctx) {
 				}
 			}
 			if !modelSame && !specOK {
-				if impl == "T" && L.model[k] != "T" {
+				if impl == "T" && L.model[k] != "T" && !premature {
 					lostTiming = true // may be scheduling: decided after the slow re-run
 				}
 				fails = append(fails, fail{"correspondence", desc + fmt.Sprintf(": impl %s, model %s", c08short(impl), c08short(L.model[k])) + sess, "impl-vs-model"})
@@ -1027,6 +1144,18 @@ func runC08(c *ctx) {
 		}
 		for k, cl := range p.calls {
 			res.Count(fmt.Sprintf("behaviour:%d", cl.mode))
+			if cl.idleFactor > 0 && k > 0 {
+				res.Count(fmt.Sprintf("history:idle-%dx-timeout-after-%s", cl.idleFactor, run.outcomes[k-1].class))
+			}
+			if k > 0 && p.timeoutOf(k) >= 2*p.timeoutOf(k-1) {
+				res.Count("history:short-then-long-timeout")
+			}
+			if k > 0 && 2*p.timeoutOf(k) <= p.timeoutOf(k-1) {
+				res.Count("history:long-then-short-timeout")
+			}
+			if cl.useDefault {
+				res.Count("history:driver-TimeoutOps-in-force")
+			}
 			res.Count("outcome:" + run.outcomes[k].class)
 			if len(cl.before)+len(cl.after) > 0 {
 				res.Count("late-reply-next-to-a-reply")
@@ -1105,7 +1234,7 @@ func runC08(c *ctx) {
 }
 
 // c08Child runs this binary again on the given replay selector and returns its Result.
-func c08Child(c *ctx, selector string) (*vlib.Result, string) {
+func c08Child(c *ctx, selector string, godebug ...string) (*vlib.Result, string) {
 	tmp, err := os.CreateTemp("", "verif-c08-*.json")
 	if err != nil {
 		return nil, err.Error()
@@ -1114,6 +1243,14 @@ func c08Child(c *ctx, selector string) (*vlib.Result, string) {
 	defer os.Remove(tmp.Name())
 	cmd := exec.Command(os.Args[0], "C08", "-tier", c.tier, "-seed", strconv.FormatUint(c.seed, 10), "-driver", c.driver,
 		"-scale", strconv.Itoa(c.scale), "-out", tmp.Name(), "-replay", selector)
+	// The stale-timer class of defects only shows under the pre-Go-1.23 timer-channel semantics
+	// (asynctimerchan=1), which is what the library's own go.mod (go 1.20) selects for its users'
+	// builds when their main module says the same; pin it instead of inheriting it from go/go.mod.
+	gd := "asynctimerchan=1"
+	if len(godebug) > 0 {
+		gd = godebug[0]
+	}
+	cmd.Env = append(os.Environ(), "GODEBUG="+gd)
 	out, err := cmd.CombinedOutput()
 	tail := string(out)
 	if len(tail) > 1500 {
@@ -1139,6 +1276,22 @@ func c08Supervise(c *ctx, lines []string) {
 		rule := c.res.Rule
 		*c.res = *r
 		c.res.Rule = rule
+		c.res.Note("sessions ran under GODEBUG=asynctimerchan=1 (pre-Go-1.23 timer channels, what a go 1.20 main module gets); the directed history/known-finding sessions ran again under asynctimerchan=0")
+		// the directed sessions once more under the Go >= 1.23 timer semantics
+		if r2, _ := c08Child(c, fmt.Sprintf("c08 range 0 %d", len(c08DirectedNames)), "asynctimerchan=0"); r2 != nil {
+			c.res.Evaluations += r2.Evaluations
+			c.res.InDomain += r2.InDomain
+			c.res.TracesVsImpl += r2.TracesVsImpl
+			for k, v := range r2.Distribution {
+				c.res.Distribution["asynctimerchan=0/"+k] += v
+			}
+			for _, f := range r2.Findings {
+				f.Detail = "[asynctimerchan=0] " + f.Detail
+				c.res.Findings = append(c.res.Findings, f)
+			}
+		} else {
+			c.res.Fail("machinery", "c08 range", "the asynctimerchan=0 child did not complete", "child-crash")
+		}
 		return
 	}
 	// the child died: find the first session that kills it
